@@ -783,7 +783,7 @@ struct FlatSetEngine : EngineBase {
       VM.clear();
     }
     verify();
-    for (int i = 0; i < nops && !g_cut; ++i) {
+    for (int i = 0; i < nops && !g_cut && !g_fz_exhausted; ++i) {
       g_cur_op = i + 1;
       int a = rng.below(NS);
       uint32_t r = rng.below(100);
@@ -815,6 +815,42 @@ struct FlatSetEngine : EngineBase {
 
 }  // namespace vf
 
+#ifdef VF_FUZZ
+// coverage-guided entry point (libFuzzer): the byte string drives every decision of the history generator
+static vf::FlatSetEngine<Elem, Cmp, Cmp2, VecT> *g_fz_eng = nullptr;
+static long g_fz_inputs = 0;
+static void fz_at_exit() {
+  if (g_fz_eng) g_fz_eng->write_summary(VF_CFG_NAME, 0, 0, g_fz_inputs, g_fz_inputs, true);
+}
+extern "C" int LLVMFuzzerTestOneInput(const uint8_t *data, size_t size) {
+  using namespace vf;
+  if (!g_fz_eng) {
+    MonScope m;
+    const char *out = getenv("VF_FUZZ_OUT");
+    if (out) open_out(out);
+    const char *ring = getenv("VF_FUZZ_RING");
+    if (ring) open_ring(ring);
+    install_malloc_hook();
+    g_elem_relocatable = EI<Elem>::kRelocatable;
+    g_selfswap_window = true;
+    g_fz_eng = new FlatSetEngine<Elem, Cmp, Cmp2, VecT>();
+    atexit(fz_at_exit);
+  }
+  g_fz_data = data;
+  g_fz_size = size;
+  g_fz_pos = 0;
+  g_fz_exhausted = false;
+  g_fz_on = true;
+  g_fz_eng->run_history(0, g_fz_inputs++, 120);
+  g_fz_on = false;
+  if (g_cut) {
+    MonScope m;
+    g_fz_eng->write_summary(VF_CFG_NAME, 0, 0, g_fz_inputs, g_fz_inputs, true);
+    abort();  // libFuzzer keeps the input as the replay artifact
+  }
+  return 0;
+}
+#else
 int main(int argc, char **argv) {
   using namespace vf;
   Args a;
@@ -833,3 +869,4 @@ int main(int argc, char **argv) {
   if (g_cut) _exit(3);
   return 0;
 }
+#endif
